@@ -405,8 +405,24 @@ class C17(PropertyCheck):
         m1 = aa.Mask1D(mask=mask, pixel_scales=float(Fraction(g["scale"])), origin=(float(Fraction(g["origin"])),))
         return aa.Grid1D.from_mask(mask=m1)
 
-    def _grid_pts(self, g):
-        """the coordinates of the case's grid, as Fractions (harness-side statement, not the code's)"""
+    @staticmethod
+    def _in_pts(grid):
+        """the coordinates of the grid object handed to the decorated call (an INPUT of the decorator):
+        exact values of the doubles it holds.  For a Grid1D: its slim x values."""
+        a = _np(grid)
+        if a.ndim == 1:
+            return qlist(a)
+        return [qlist(p) for p in a.reshape(-1, 2)]
+
+    def _grid_pts(self, g, obs=None):
+        """the coordinates of the case's grid as Fractions: those of the actual grid object when the
+        observation carries them (pixel centres computed by the code need not be the exact rationals of
+        the formula — that is property C02's subject), else the harness-side formula"""
+        if isinstance(obs, dict) and "_in_pts" in obs:
+            ip = obs["_in_pts"]
+            if g["type"] == "oned":
+                return [Fraction(x) for x in ip]
+            return [(Fraction(a), Fraction(b)) for a, b in ip]
         if g["type"] == "uniform":
             return _centres_2d(g["mask"], [Fraction(v) for v in g["scales"]], [Fraction(v) for v in g["origin"]])
         if g["type"] in ("irregular", "ndarray"):
@@ -440,6 +456,7 @@ class C17(PropertyCheck):
             tname, seen = obj.seen[0]
             out = [_container_obs(c) for c in res] if isinstance(res, list) else _container_obs(res)
             return {"seen": [qlist(p) for p in seen.reshape(-1, 2)], "out": out, "_seen_type": tname,
+                    "_in_pts": self._in_pts(grid),
                     "_same_mask": bool(getattr(res, "mask", None) is getattr(grid, "mask", 0))}
         if kind == "project":
             attrs = case["attrs"]
@@ -463,7 +480,7 @@ class C17(PropertyCheck):
             v = _np(res)
             return {"seen": [qlist(p) for p in seen.reshape(-1, 2)],
                     "values": [qlist(p) for p in v.reshape(-1, 2)] if pair else qlist(v.ravel()),
-                    "_cls": type(res).__name__, "_seen_type": tname,
+                    "_cls": type(res).__name__, "_seen_type": tname, "_in_pts": self._in_pts(grid),
                     "_scales": qlist(res.pixel_scales) if hasattr(res, "pixel_scales") else None}
         if kind == "relocate":
             from autoconf import conf
@@ -479,6 +496,7 @@ class C17(PropertyCheck):
                 tbl["MockGridRadialMinimum"] = old
             tname, seen = obj.seen[0]
             return {"seen": [qlist(p) for p in seen.reshape(-1, 2)], "_seen_type": tname,
+                    "_in_pts": self._in_pts(grid),
                     "_n_transforms": obj.n_transforms, "_in_type": type(grid).__name__}
         if kind == "transform":
             obj = mocks["radial"](centre=tuple(float(Fraction(v)) for v in case["centre"]))
@@ -494,8 +512,8 @@ class C17(PropertyCheck):
         raise ValueError(kind)
 
     # ------------------------------------------------------------------ model
-    def _grid_req(self, g, with_pts=True):
-        pts = self._grid_pts(g)
+    def _grid_req(self, g, with_pts=True, obs=None):
+        pts = self._grid_pts(g, obs)
         if g["type"] == "uniform":
             return {"type": "uniform", "mask": g["mask"], "pts": [[q(a), q(b)] for a, b in pts] if with_pts else []}
         if g["type"] in ("irregular", "ndarray"):
@@ -509,12 +527,12 @@ class C17(PropertyCheck):
             if case.get("drop_last"):
                 # the function returns one entry too few: modelled by evaluating on all coordinates but the last
                 raise Skip("bad-length function: compared through the oracle only")
-            return [{"op": "c17.decorate", "kind": case["kind"], "grid": self._grid_req(case["grid"]),
+            return [{"op": "c17.decorate", "kind": case["kind"], "grid": self._grid_req(case["grid"], obs=impl_obs),
                      "funcs": funcs, "list": case["list"],
                      "num": "float" if case["grid"]["type"] == "oned" else "rat"}]
         if kind == "project":
             g = case["grid"]
-            req = {"op": "c17.project", "grid": self._grid_req(g, with_pts=False), "func": case["func"]}
+            req = {"op": "c17.project", "grid": self._grid_req(g, with_pts=False, obs=impl_obs), "func": case["func"]}
             attrs = case["attrs"]
             req["centre"] = case["centre"] if attrs in ("both", "centre_only") else ["0", "0"]
             # angle attribute absent / None -> 0.0, and then no +90 is applied
@@ -527,7 +545,7 @@ class C17(PropertyCheck):
                 req["scales"] = g["scales"]
             return [req]
         if kind == "relocate":
-            pts = self._grid_pts(case["grid"])
+            pts = self._grid_pts(case["grid"], impl_obs)
             return [{"op": "c17.relocate", "pts": [[q(a), q(b)] for a, b in pts], "centre": case["centre"],
                      "rmin": case["rmin"]}]
         if kind == "transform":
@@ -553,8 +571,10 @@ class C17(PropertyCheck):
         g = case["grid"]
         kind = case["kind"]
         pair = kind != "array"
-        conv = Fraction if exact else float
-        exp = _eval_func(fn, [(conv(a), conv(b)) for a, b in pts], conv, pair)
+        # expectation: exact rational evaluation on the exact values of the input doubles; the code
+        # evaluates in double precision, hence the 1e-9 comparison (a permutation / dropped mask moves
+        # values by O(1))
+        exp = _eval_func(fn, [(Fraction(a), Fraction(b)) for a, b in pts], Fraction, pair)
 
         def same(got, want):
             if len(got) != len(want):
@@ -581,7 +601,7 @@ class C17(PropertyCheck):
             nat = [zero if b == "1" else next(it) for b in bits]
             if not same(c["native"], nat):
                 return "native entries are not the values at their pixels with zeros at masked pixels"
-            if kind == "vector" and not self._pts_close(c["_grid"], pts, 0.0 if exact else 1e-9):
+            if kind == "vector" and not self._pts_close(c["_grid"], pts, 0.0):
                 return "vector field's grid is not the input grid"
             return None
         if g["type"] == "irregular":
@@ -631,8 +651,8 @@ class C17(PropertyCheck):
                 return ok, "" if ok else "to_vector_yx on Grid1D should be unsupported"
             if isinstance(obs, dict) and "err" in obs:
                 return False, f"implementation raised {obs}"
-            pts = self._grid_pts(g)
-            exact = g["type"] != "oned"
+            pts = self._grid_pts(g, obs)
+            exact = False
             if g["type"] == "oned":
                 line = [(Fraction(0), x) for x in pts]
                 if obs["_seen_type"] != "Grid2DIrregular" or not self._pts_close(obs["seen"], line):
@@ -667,10 +687,10 @@ class C17(PropertyCheck):
             a = math.radians(ang)
             pair = "cx" in case["func"]
             if g["type"] == "irregular":
-                exp = [(float(p[0]), float(p[1])) for p in self._grid_pts(g)]
+                exp = [(float(p[0]), float(p[1])) for p in self._grid_pts(g, obs)]
                 want_cls = "Grid2DIrregular" if pair else "ArrayIrregular"
             elif g["type"] == "oned":
-                xs = [float(x) for x in self._grid_pts(g)]
+                xs = [float(x) for x in self._grid_pts(g, obs)]
                 exp = [(-x * math.sin(a), x * math.cos(a)) for x in xs]
                 want_cls = "Array1D"
             else:
@@ -700,7 +720,7 @@ class C17(PropertyCheck):
         if kind == "relocate":
             cy, cx = (float(Fraction(v)) for v in case["centre"])
             rmin = float(Fraction(case["rmin"]))
-            pts = [(float(a) - cy, float(b) - cx) for a, b in self._grid_pts(case["grid"])]
+            pts = [(float(a) - cy, float(b) - cx) for a, b in self._grid_pts(case["grid"], obs)]
             seen = [(float(Fraction(a)), float(Fraction(b))) for a, b in obs["seen"]]
             if len(seen) != len(pts):
                 return False, "number of coordinates changed"
@@ -786,8 +806,9 @@ class C17(PropertyCheck):
         return {
             "dispatch": ["C17.dispatch_uniform", "C17.dispatch_irregular", "C17.dispatch_oned",
                          "C17.list_wrapped_elementwise", "C17.pointwise_entry_k"],
-            "project": ["C17.projected_line_1d", "C17.projected_line_2d"],
-            "relocate": ["C17.relocate_inside", "C17.relocate_outside_unchanged", "C17.relocate_centre"],
+            "project": ["C17.projected_line_1d", "C17.projected_line_1d_plain", "C17.projected_line_2d"],
+            "relocate": ["C17.relocate_inside", "C17.relocate_outside_unchanged", "C17.relocate_centre",
+                         "C17.relocate_entry_k"],
             "transform": ["C17.transform_once"],
         }[case["case"]]
 
